@@ -143,6 +143,8 @@ static struct { const char* name; var (*f)(var); var obj; } fns[] = {
 };
 static bool cmp_gt(var a, var b) { return gt(a, b); }
 static bool cmp_lt(var a, var b) { return lt(a, b); }
+static bool cmp_ge(var a, var b) { return ge(a, b); }
+static bool cmp_le(var a, var b) { return le(a, b); }
 
 /* ---- type names --------------------------------------------------------------------- */
 static struct { const char* name; var* t; } types[] = {
@@ -422,7 +424,10 @@ static void do_op(char** w, int n) {
   else if (OP("append")) { append(arg(w[1]), arg(w[2])); }
   else if (OP("resize")) { resize(arg(w[1]), (size_t)strtoull(w[2], NULL, 10)); }
   else if (OP("sort")) { sort(arg(w[1])); }
-  else if (OP("sortby")) { sort_by(arg(w[1]), w[2][0] is 'g' ? cmp_gt : cmp_lt); }
+  else if (OP("sortby")) {               /* sortby c lt|gt|le|ge */
+    bool strict = w[2][1] is 't';
+    sort_by(arg(w[1]), w[2][0] is 'g' ? (strict ? cmp_gt : cmp_ge) : (strict ? cmp_lt : cmp_le));
+  }
   else if (OP("assign")) { var r = assign(arg(w[1]), arg(w[2])); repr(r, 0); }
   else if (OP("copy")) { var r = copy(arg(w[2])); S[slotno(w[1])] = r; repr(r, 0); }
   else if (OP("swap")) { swap(arg(w[1]), arg(w[2])); }
